@@ -28,7 +28,8 @@ def gen_graph(rng, stress):
 
     pool = []
     for _ in range(rng.randint(2, 6)):
-        k = rng.choice(["list", "dict", "set", "bytearray", "array", "array", "sparse", "estimator", "rng", "objarr", "dtype", "scalarstate"])
+        k = rng.choice(["list", "dict", "set", "bytearray", "array", "array", "sparse", "estimator", "rng", "objarr", "dtype", "scalarstate",
+                        "matrix", "ndsub", "bytearray-sub", "bytearray-empty", "masked", "defaultdict", "ordered"])
         if k == "list":
             pool.append([rng.randint(0, 9)])
         elif k == "dict":
@@ -39,6 +40,28 @@ def gen_graph(rng, stress):
             pool.append(bytearray(b"ab"))
         elif k == "array":
             pool.append(fresh_array())
+        elif k == "matrix":
+            pool.append(np.matrix(fresh_array()))
+        elif k == "ndsub":
+            from ..objgen import U
+
+            pool.append(U.MyArray(fresh_array()))
+        elif k == "bytearray-sub":
+            from ..objgen import U
+
+            pool.append(U.MyByteArray(b"sub"))
+        elif k == "bytearray-empty":
+            pool.append(bytearray())
+        elif k == "masked":
+            pool.append(np.ma.MaskedArray(fresh_array(), [0, 1, 0]))
+        elif k == "defaultdict":
+            import collections
+
+            pool.append(collections.defaultdict(list, {"k": [rng.randint(0, 9)]}))
+        elif k == "ordered":
+            import collections
+
+            pool.append(collections.OrderedDict(a=[rng.randint(0, 9)]))
         elif k == "sparse":
             counter[0] += 1
             pool.append(sp.csr_matrix(np.eye(2) * (1000 * counter[0])))
